@@ -25,6 +25,9 @@ type finding struct {
 
 // cause names why the attempt failed, as far as the observations tell (part of the signature).
 func (o *Obs) cause() string {
+	if strings.HasPrefix(o.Desc.Fault, "wclose") {
+		return o.Desc.Fault // a collaborator shut down mid-RPC: never one of the wire / relay causes
+	}
 	for _, c := range o.Calls {
 		switch {
 		case c.C == "dial" && c.Res == "err":
@@ -508,13 +511,13 @@ func (r *runner) onePath(path []edge, repeat int) error {
 			r.res.Sample(map[string]any{"desc": exp.d, "observed": o, "spec_calls": exp.calls})
 		}
 		// a world is reused only while it is exactly what the next path's Init assumes
-		if dirty || o.DHRes > 0 && !o.Committed || o.DRRes > 0 && !o.Committed || o.HostPoolGrew && !o.Committed {
+		if dirty || w.hostWalletClosed || o.DHRes > 0 && !o.Committed || o.DRRes > 0 && !o.Committed || o.HostPoolGrew && !o.Committed {
 			r.drop()
 			return nil
 		}
 		if o.Committed {
-			if o.R != "ok" {
-				// the host moved on without the renter: start from a fresh contract
+			if o.R != "ok" || w.hostWalletClosed {
+				// the host moved on without the renter / its wallet is shut down: start afresh
 				r.drop()
 			}
 			return nil // successes are not repeated
@@ -610,7 +613,7 @@ var driverKinds = []string{"form", "renew", "refreshFull", "refreshPartial"}
 var driverBases = []string{"same", "same", "behind", "fork", "forkx"}
 var driverPVs = []string{"allow0", "coll", "price", "proof", "chal", "hfund", "rfund", "noelem", "noelem"}
 var driverFaults = []string{"none", "dial", "cutB1", "cutA1", "cutB2", "cutA2", "cutB3", "cutA3", "cutB4", "cutA4",
-	"m1basis", "m1value", "m2low", "m2id", "m3sig", "m3pol", "m3len", "m4empty", "m4sig", "m4txn", "bcast"}
+	"m1basis", "m1value", "m2low", "m2id", "m3sig", "m3pol", "m3len", "m4empty", "m4sig", "m4txn", "bcast", "wclose1", "wclose2", "wclose3"}
 var earlyFaults = []string{"none", "dial", "cutB1", "cutA1", "cutB2", "cutA2", "m1basis", "m1value"}
 
 // TestDriver runs random sequences of attempts -- with runs of repeated failures -- on one world
@@ -797,7 +800,7 @@ func driveOne(res *hx.Result, tw *hx.TraceWriter, tr int64, tlen int, stub strin
 				leaks++
 			}
 			// a world with residue in the host's pool, or drained by leaks, ends its trace
-			if !o.Committed && (o.HostPoolGrew || o.DHCon != 0) || leaks >= 2 {
+			if !o.Committed && (o.HostPoolGrew || o.DHCon != 0) || leaks >= 2 || w.hostWalletClosed {
 				res.Sample(map[string]any{"trace": tr, "attempts_prefix": sample, "ended_after": i + 1})
 				return nil
 			}
